@@ -81,3 +81,11 @@ M += [
  ('c13-mid-core', 'C13', 'teneva/anova.py', "            core[1, :, 1] = 1.\n            core[0, :, 1] = self.f1_arr[i]", "            core[1, :, 1] = 1.\n            core[0, :, 1] = self.f1_arr[i] if r < 6 else self.f1_arr[i] * 0.5", 'middle term halved for r=6'),
  ('c13-func-const', 'C13', 'teneva/anova_func.py', "            cfs[0] += cur_cf[0]", "            cfs[0] += cur_cf[0] if self.n > 2 else 0.", 'constant of the 1-D fits dropped for n=2'),
 ]
+
+M += [
+ ('c16-half', 'C16', 'teneva/act_one.py', "        return np.sqrt(v) if v > 0 else 0., p/2", "        return np.sqrt(v) if v > 0 else 0., p//2", 'norm exponent integer division'),
+ ('c16-sat-sign', 'C16', 'teneva/act_two.py', "    if p1 - p2 > 500:\n        return 1.E+299", "    if p1 - p2 > 500 or p1 - p2 < -5000:\n        return 1.E+299 if p1 > 0 else 0.", 'saturation sign depends on p1'),
+ ('c16-stab-thr', 'C16', 'teneva/core.py', "    if v_max <= thr:\n        return G, p0", "    if v_max <= thr or v_max > 1.E+200:\n        return G, p0", 'core_stab skips huge cores'),
+ ('c16-trunc-scale', 'C16', 'teneva/transformation.py', "            Z[k] *= 2**(p/d)", "            Z[k] *= 2**(p//d)", 'stabilised truncate redistributes the exponent with integer division'),
+ ('c16-dot-first', 'C16', 'teneva/act_two.py', "        if use_stab:\n            v, p = teneva.core_stab(v, p)\n\n    v = v.item()", "        if use_stab and (i > 0 or len(Y1) < 50):\n            v, p = teneva.core_stab(v, p)\n\n    v = v.item()", 'first core not rescaled for long trains'),
+]
